@@ -1,6 +1,7 @@
 package c03
 
 import (
+	"bytes"
 	"errors"
 	"fmt"
 	"reflect"
@@ -286,6 +287,23 @@ var chkEmit = harness.Define("crc-emission", genEmit,
 		ref := spec.RefCRC16(frame[:n-2])
 		if frame[n-2] != byte(ref) || frame[n-1] != byte(ref>>8) {
 			return harness.Fail("%s frame %x: trailer %02x %02x, reference CRC lo,hi = %02x %02x", typ, frame, frame[n-2], frame[n-1], byte(ref), byte(ref>>8))
+		}
+		// the emitted frame is the caller's: it may be modified (a trailer replaced for fault injection, the buffer reused) without
+		// any effect on what the same value emits next
+		first := append([]byte(nil), frame...)
+		frame[n-2], frame[n-1] = frame[n-2]^0x5A, frame[n-1]^0xA5 // only the trailer
+		again, _ := emitted(c)
+		if !bytes.Equal(again, first) {
+			return harness.Fail("%s emitted %x; after the caller replaced the trailer in that slice, emitting the same value again gives %x", typ, first, again)
+		}
+		for i := range frame {
+			frame[i] ^= 0xEE
+		}
+		for i := range again {
+			again[i] ^= 0x77
+		}
+		if third, _ := emitted(c); !bytes.Equal(third, first) {
+			return harness.Fail("%s emitted %x; after the caller overwrote the slices it was given, emitting the same value again gives %x", typ, first, third)
 		}
 		return harness.Result{NonTrivial: n > 4, Labels: []string{"emit:" + c.Kind, fmt.Sprintf("emit-fc%d", c.Req.FC|c.Resp.FC)}}
 	})
